@@ -242,8 +242,12 @@ def run(ctx):
             continue
         hv = ctx.fn('ProtocolState::' + h)
         mut_blocks = set(c.bb for c in hv.calls() if c.nfn.startswith(PS + '::') and c.nfn.split('::')[-1] in ('complete_operation_as_success', 'complete_operation_as_failure', 'enqueue_operation', 'create_operation', 'change_state', 'apply_session_present_to_connection', 'initialize_slow_start'))
+        noop_takes = {}
         for m in prims.mutations(hv):
             if m.kind in ('assign', 'mutcall') and (prims.self_field(m.path) is not None or show(m.path).endswith('.qos2_pubrel')):
+                if m.method == 'take':
+                    noop_takes[m.bb] = show(m.path)     # `x.take()` changes nothing on the path where it yielded None
+                    continue
                 mut_blocks.add(m.bb)
         succ, _, _ = hv.graph()
         after = hv.reach([s for b in mut_blocks for s in succ[b]])
@@ -261,6 +265,9 @@ def run(ctx):
                         if x[0] == 'const' and isinstance(x[1], dict) and 'str' in x[1]:
                             msg = x[1]['str']
             okb = b not in after
+            for tb, path_ in noop_takes.items():
+                if okb and b in hv.reach(list(succ[tb])) and not guarded_any(hv, b, ['^' + re.escape(path_) + r' is None$']):
+                    okb = False
             if not okb and h == 'handle_connack':
                 okb = 'broker rejected' in msg or False
             ctx.ob(okb, '%s: error exit "%s" is reached without a prior mutation' % (h, msg[:50]), 'err-clean|%s|%s' % (h, msg[:40]), loc=hv.loc(b))
